@@ -185,8 +185,8 @@ func (ex *Exec) freshResults(res *types.Tuple, hint string) *Val {
 }
 
 func (ex *Exec) callFunction(callee *ssa.Function, args []Val, binds []Val, p token.Pos) *Val {
-	_ = ex.c
 	w := ex.w
+	ex.assertCalls(callee.String(), paramNames(callee), args, p)
 	ct, key := w.contractFor(callee)
 	if ct != nil && !ct.Inline {
 		return ex.applyContract(ct, key, callee.Signature, paramNames(callee), args, p, callee)
@@ -602,6 +602,14 @@ func (ex *Exec) invoke(cc *ssa.CallCommon, p token.Pos) *Val {
 	args := append([]Val{recv}, ex.argVals(cc)...)
 	m := cc.Method
 	name := m.FullName() // (io.Reader).Read
+	{
+		sig := m.Type().(*types.Signature)
+		anames := []string{"recv"}
+		for i := 0; i < sig.Params().Len(); i++ {
+			anames = append(anames, sig.Params().At(i).Name())
+		}
+		ex.assertCalls(name, anames, args, p)
+	}
 	if ct, ok := w.Stubs[name]; ok {
 		sig := m.Type().(*types.Signature)
 		names := []string{"recv"}
